@@ -1,5 +1,5 @@
 import LiquidVerif.Lemmas.Recur
--- PARSEIMPORT
+import LiquidVerif.Lemmas.ParseLoops
 /-!
 # C09 — parsing and rendering always terminate within the stack
 
@@ -170,9 +170,41 @@ theorem stack_counterexample :
   omega
 
 /-! ## (b) parsing -/
--- PARSEOPEN
-/-- placeholder replaced below -/
-theorem parse_placeholder : True := trivial
+section Parsing
+open LiquidVerif.ParseLoops
+
+/-- **Every loop iteration of the parser returns a strictly shorter remainder.**  One pass of the loop of
+`Parser._parse` / `Parser.parse_block` that does not raise — whatever tag parser the current token dispatches to,
+whatever that parser consumed or skipped, in any mode, at any block depth — goes on (`next(stream)`) with a stream
+strictly lighter than the one the pass started with; the loop then behaves exactly like the loop on that lighter
+stream.  (`wl` counts tokens, the line tokens of `liquid` tags included.)  This is the reason the model's parser
+is a total function without fuel, and it is the property whose absence was the 2.2.1 `{% case %}` hang. -/
+theorem tokens_strictly_consumed (cfg : Cfg) (ends : List String) (d : Nat) (t : Tok) (r : List Tok)
+    (hend : t.isTagIn ends = false) (hok : (getNode cfg d t r).1.err = none) :
+    wl (getNode cfg d t r).1.rest.tail < wl (t :: r) ∧
+    (blockLoop cfg ends d (t :: r)).1.rest =
+      (blockLoop cfg ends (getNode cfg d t r).1.depth (getNode cfg d t r).1.rest.tail).1.rest ∧
+    (blockLoop cfg ends d (t :: r)).1.err =
+      (blockLoop cfg ends (getNode cfg d t r).1.depth (getNode cfg d t r).1.rest.tail).1.err :=
+  ⟨wl_tail_lt (getNode cfg d t r).2, blockLoop_step cfg ends d t r hend hok⟩
+
+/-- No tag parser, and no parse of a whole template, ever leaves more stream than it was given. -/
+theorem parse_never_rewinds (cfg : Cfg) (d : Nat) (t : Tok) (r : List Tok) (ts : List Tok) :
+    wl (getNode cfg d t r).1.rest ≤ wl (t :: r) ∧ wl (parseTemplate cfg ts).rest ≤ wl ts :=
+  ⟨(getNode cfg d t r).2, (blockLoop cfg [] 0 ts).2⟩
+
+/-- **The `{% case %}` loop cannot spin at the end of input** (the 2.2.1 hang): at EOF the
+`while not stream.current.is_tag("endcase")` loop raises LiquidSyntaxError at once … -/
+theorem case_loop_eof_raises (cfg : Cfg) (d : Nat) : (caseLoop cfg d []).1.err = some .syntax :=
+  caseLoop_nil cfg d
+
+/-- **Parsing in LAX / WARN mode is total and complete**: for every token list — unterminated, unbalanced,
+arbitrarily nested — `Parser.parse` returns without an exception having consumed the whole stream. -/
+theorem lax_parse_total (cfg : Cfg) (hl : cfg.lax = true) (ts : List Tok) :
+    (parseTemplate cfg ts).err = none ∧ (parseTemplate cfg ts).rest = [] :=
+  blockLoop_lax_total cfg hl _ ts 0 rfl
+
+end Parsing
 
 /-! ## non-vacuity -/
 
@@ -194,5 +226,9 @@ example : ∀ t, (t = [.extends "b", .block "x" []] ∨ t = [Node.extends "a"]) 
   rcases ht with rfl | rfl
   · exact ⟨"b", [.extends "a"], by simp [extsOfList, extsOf], by simp [exCyc, lookup], Or.inr rfl⟩
   · exact ⟨"a", [.extends "b", .block "x" []], by simp [extsOfList, extsOf], by simp [exCyc, lookup], Or.inl rfl⟩
+
+/-- hypotheses of `tokens_strictly_consumed`: `{% if a %}x` (unterminated) in LAX mode — the `if` parser fails, eats
+to the end, returns an IllegalNode without error -/
+example : (ParseLoops.Tok.tag "if").isTagIn [] = false := rfl
 
 end LiquidVerif.C09
